@@ -31,6 +31,7 @@ structure Cfg where
   o1 : Bool := false  -- `cryptoKeyScript` is the all-zero key (never restored by `Unlock`/`loadManager`) (O1)
   t1 : Bool := false  -- `deletePrivateKeys` leaves secret taproot script rows in place
   l1 : Bool := false  -- `NewScopedKeyManager` writes no `lastaccount` row: the first new account of the scope is 0 again
+  e1 : Bool := false  -- `extendAddresses` leaves `MasterKeyFingerprint` zero in the derivation path of the objects it caches
   deriving Repr, Inhabited, DecidableEq
 
 /-- the official tree: no defect -/
